@@ -486,6 +486,417 @@ def knap_cases(ctx, r, lines, checks):
         checks.append((site + ' vs Gen.' + which, which, 'err' if cqm is None else canon_cqm(cqm), src, bad))
 
 
+
+# ------------------------------------------------------------------------------------ quadratic knapsacks
+
+def qknap_cases(ctx, r, lines, checks):
+    for _ in range(ctx.scale(40, 800)):
+        which = r.choice(['qknap', 'qmknap'])
+        n = r.randint(0, 4) if which == 'qknap' else r.randint(0, 3)
+        values = [F(r.randint(-4, 40), 4) for _ in range(n)]
+        weights = [F(r.randint(0, 24), 4) for _ in range(n)]
+        P = [[F(0)] * n for _ in range(n)]
+        for i in range(n):
+            for j in range(i, n):
+                P[i][j] = P[j][i] = F(r.randint(-8, 24), 4)       # the diagonal is ignored by the code
+        mal = None
+        k = r.random()
+        if k < .05:
+            mal = 'shape mismatch'; weights = weights + [F(1)]
+        elif k < .11 and n >= 2:
+            mal = 'profits not symmetric'; i, j = r.sample(range(n), 2); P[i][j] += 1
+        elif k < .16 and n >= 1:
+            mal = 'profits of the wrong size'; P = [row + [F(0)] for row in P] + [[F(0)] * (n + 1)]
+        fl = lambda l: [float(a) for a in l]   # noqa: E731
+        Pf = [fl(row) for row in P]
+        ptxt = ';'.join(','.join(map(rat, row)) for row in P) or '-'
+        if which == 'qknap':
+            cap = F(r.randint(0, 40), 4)
+            call = f'G.quadratic_knapsack({fl(values)!r}, {fl(weights)!r}, {Pf!r}, {float(cap)!r})'
+            f = lambda: G.quadratic_knapsack(fl(values), fl(weights), Pf, float(cap))   # noqa: E731
+            line = f"qknap {rat(cap)} {','.join(map(rat, values)) or '-'} {','.join(map(rat, weights)) or '-'} {ptxt}"
+            pre = f'values, weights, P, cap = {fl(values)!r}, {fl(weights)!r}, {Pf!r}, {float(cap)!r}\n'
+            pred = ('x = lambda i: s[f"x_{i}"]\nn = len(values)\n'
+                    'feas = sum(F(w)*x(i) for i, w in enumerate(weights)) <= F(cap)\n'
+                    'obj = -sum(F(v)*x(i) for i, v in enumerate(values)) - sum(F(P[i][j])*x(i)*x(j) for i in range(n) for j in range(i + 1, n))\n')
+            caps = None
+        else:
+            m = r.randint(0, 2)
+            caps = [F(r.randint(0, 32), 4) for _ in range(m)]
+            cap = None
+            call = f'G.quadratic_multi_knapsack({fl(values)!r}, {fl(weights)!r}, {Pf!r}, {fl(caps)!r})'
+            f = lambda: G.quadratic_multi_knapsack(fl(values), fl(weights), Pf, fl(caps))   # noqa: E731
+            line = f"qmknap {','.join(map(rat, values)) or '-'} {','.join(map(rat, weights)) or '-'} {','.join(map(rat, caps)) or '-'} {ptxt}"
+            pre = f'values, weights, P, caps = {fl(values)!r}, {fl(weights)!r}, {Pf!r}, {fl(caps)!r}\n'
+            pred = ('x = lambda i, j: s[f"x_{i}_{j}"]\nn = len(values); m = len(caps)\n'
+                    'feas = all(sum(x(i, j) for j in range(m)) <= 1 for i in range(n)) and all(sum(F(w)*x(i, j) for i, w in enumerate(weights)) <= F(c) for j, c in enumerate(caps))\n'
+                    'obj = -sum(F(v)*x(i, j) for i, v in enumerate(values) for j in range(m)) - sum(F(P[i][k])*x(i, j)*x(k, j) for i in range(n) for k in range(i + 1, n) for j in range(m))\n')
+        src = (HDR + pre + f'cqm = {call}\nvs = list(cqm.variables)\n'
+               'for t in itertools.product((0, 1), repeat=len(vs)):\n'
+               '    s = dict(zip(vs, t))\n' + ''.join('    ' + ln + '\n' for ln in pred.splitlines()) +
+               '    assert cqm.check_feasible(s) == feas, (s, feas)\n'
+               '    assert F(float(cqm.objective.energy(s))) == obj, (s, obj)\n')
+        try:
+            with warnings.catch_warnings():
+                warnings.simplefilter('ignore')
+                cqm = f()
+        except ValueError:
+            cqm = None
+        name = 'quadratic_knapsack' if which == 'qknap' else 'quadratic_multi_knapsack'
+        site = 'generators.' + name
+        ctx.tick(which + (':raises' if cqm is None else '') + (':' + mal if mal else ''))
+        ctx.case((which, line), nontrivial=cqm is not None and n > 0, sample=dict(call=call))
+        if (cqm is None) != (mal is not None):
+            ctx.fail('property', site, mal or 'valid arguments', f'{call}: ' + ('refused' if cqm is None else 'accepted'),
+                     repro=HDR + pre + f'try:\n    {call}\n    ok = True\nexcept ValueError:\n    ok = False\nassert ok == {mal is None}\n')
+            continue
+        bad = False
+        if cqm is not None:
+            vs = list(cqm.variables)
+            if len(vs) <= 12:
+                for t in itertools.product((0, 1), repeat=len(vs)):
+                    s = dict(zip(vs, t))
+                    env = dict(s=s, F=F, values=values, weights=weights, P=P, cap=cap, caps=caps)
+                    exec(pred, env)
+                    got_f = cqm.check_feasible(s) if vs else cqm.check_feasible({})
+                    got_o = fr(cqm.objective.energy(s)) if vs else None
+                    if got_f != env['feas'] or (got_o is not None and got_o != env['obj']):
+                        bad = True
+                        ctx.fail('property', site, 'feasibility' if got_f != env['feas'] else 'objective',
+                                 f'{call}: at {s!r} check_feasible={got_f} objective={got_o}; documented condition gives feasible={env["feas"]} objective={env["obj"]}', repro=src)
+                        break
+                if not bad and any(cqm.vartype(v) is not dimod.BINARY for v in vs):
+                    bad = True
+                    ctx.fail('property', site, 'variable type', f'{call}: a variable is not BINARY', repro=src + 'assert all(cqm.vartype(v) is dimod.BINARY for v in vs)\n')
+        lines.append(line)
+        checks.append((site + ' vs Gen.' + which, which, 'err' if cqm is None else canon_cqm(cqm), src, bad))
+
+
+
+# ------------------------------------------------------------------------------------ quadratic assignment
+
+def qap_cases(ctx, r, lines, checks):
+    for rep in range(ctx.scale(24, 400)):
+        n = r.randint(1, 3)
+        sym = r.random() < .4
+        D = [[0] * n for _ in range(n)]; Fl = [[0] * n for _ in range(n)]
+        for i in range(n):
+            for j in range(n):
+                Fl[i][j] = r.randint(0, 7) if i != j or r.random() < .2 else 0
+                if i <= j or not sym:
+                    D[i][j] = r.randint(0, 7) if i != j or r.random() < .2 else 0
+                else:
+                    D[i][j] = D[j][i]
+        mal = None
+        k = r.random()
+        if k < .06:
+            mal = 'shapes differ'; Fl = [row + [0] for row in Fl] + [[0] * (n + 1)]
+        elif k < .12:
+            mal = 'not square'; D = D + [[1] * n]; Fl = Fl + [[1] * n]
+        asym = any(D[i][j] != D[j][i] for i in range(min(n, len(D))) for j in range(n)) if mal is None else False
+        call = f'G.quadratic_assignment({D!r}, {Fl!r})'
+        site = 'generators.quadratic_assignment'
+        cls = 'asymmetric distance matrix' if asym else 'symmetric distance matrix'
+        src = (HDR + f'D, Fl = {D!r}, {Fl!r}\nn = len(D)\ncqm = {call}\n'
+               'vs = [f"x_{i}_{j}" for i in range(n) for j in range(n)]\nassert list(cqm.variables) == vs\n'
+               'for t in itertools.product((0, 1), repeat=len(vs)):\n'
+               '    s = dict(zip(vs, t)); x = lambda i, j: s[f"x_{i}_{j}"]\n'
+               '    feas = all(sum(x(i, j) for j in range(n)) == 1 for i in range(n)) and all(sum(x(i, j) for i in range(n)) == 1 for j in range(n))\n'
+               '    assert cqm.check_feasible(s) == feas, (s, feas)\n'
+               '    if feas:\n'
+               '        loc = {i: j for i in range(n) for j in range(n) if x(i, j)}\n'
+               '        cost = sum(Fl[i][k] * D[loc[i]][loc[k]] for i in range(n) for k in range(n) if i != k)\n'
+               '        assert F(float(cqm.objective.energy(s))) == cost, (loc, float(cqm.objective.energy(s)), cost)\n')
+        try:
+            with warnings.catch_warnings():
+                warnings.simplefilter('ignore')
+                cqm = G.quadratic_assignment(D, Fl)
+        except ValueError:
+            cqm = None
+        ctx.tick('qap' + (':raises' if cqm is None else '') + (':' + mal if mal else '') + (':asymmetric' if asym else ''))
+        ctx.case(('qap', repr(D), repr(Fl)), nontrivial=cqm is not None and n > 1, sample=dict(call=call))
+        if (cqm is None) != (mal is not None):
+            ctx.fail('property', site, mal or 'valid arguments', f'{call}: ' + ('refused' if cqm is None else 'accepted'),
+                     repro=HDR + f'try:\n    {call}\n    ok = True\nexcept ValueError:\n    ok = False\nassert ok == {mal is None}\n')
+            continue
+        bad = False
+        if cqm is not None:
+            vs = [f'x_{i}_{j}' for i in range(n) for j in range(n)]
+            if list(cqm.variables) != vs or any(cqm.vartype(v) is not dimod.BINARY for v in vs):
+                bad = True
+                ctx.fail('property', site, 'variables', f'{call}: variables {list(cqm.variables)!r}', repro=src)
+            for t in itertools.product((0, 1), repeat=len(vs)) if not bad else ():
+                s = dict(zip(vs, t))
+                feas = (all(sum(s[f'x_{i}_{j}'] for j in range(n)) == 1 for i in range(n))
+                        and all(sum(s[f'x_{i}_{j}'] for i in range(n)) == 1 for j in range(n)))
+                got_f = cqm.check_feasible(s)
+                if got_f != feas:
+                    bad = True
+                    ctx.fail('property', site, 'feasibility', f'{call}: at {s!r} check_feasible={got_f}; "every facility at one location, every location one facility" gives {feas}', repro=src)
+                    break
+                if feas:
+                    loc = {i: j for i in range(n) for j in range(n) if s[f'x_{i}_{j}']}
+                    cost = sum(Fl[i][k] * D[loc[i]][loc[k]] for i in range(n) for k in range(n) if i != k)
+                    got = fr(cqm.objective.energy(s))
+                    if got != cost:
+                        bad = True
+                        ctx.fail('property', site, cls, f'{call}: assignment facility->location {loc!r}: objective {got}, quadratic-assignment cost sum_(i!=k) flow[i][k]*distance[loc(i)][loc(k)] = {cost}', repro=src)
+                        break
+        mtxt = lambda M: ';'.join(','.join(map(str, row)) for row in M) or '-'   # noqa: E731
+        lines.append(f'qap {mtxt(D)} {mtxt(Fl)}')
+        checks.append((site + ' vs Gen.quadraticAssignment', cls if cqm is not None else 'refusal', 'err' if cqm is None else canon_cqm(cqm), src, bad))
+
+# ------------------------------------------------------------------------------------ kMC-SAT: the model as a function of the drawn clauses
+
+def parse_clauses(log, n, k, m, plant):
+    """cut the recorded scalars into clauses exactly as `_kmcsat_interactions` consumes them: per clause k indices
+    (`choice(n, k, replace=False)`), k sign bits, and — with plant_solution — k more bits while |sum(signs)| > 1"""
+    pos, out = 0, []
+    for _ in range(m):
+        idx = log[pos:pos + k]; pos += k
+        sg = [2 * b - 1 for b in log[pos:pos + k]]; pos += k
+        while plant and abs(sum(sg)) > 1:
+            sg = [2 * b - 1 for b in log[pos:pos + k]]; pos += k
+        out.append(list(zip(idx, sg)))
+    return out, pos
+
+
+def kmcsat_cases(ctx, r, lines, checks):
+    for _ in range(ctx.scale(45, 900)):
+        name = r.choice(['random_nae3sat', 'random_2in4sat', 'random_kmcsat'])
+        k = {'random_nae3sat': 3, 'random_2in4sat': 4}.get(name) or r.randint(1, 5)
+        n = r.randint(max(1, k - (1 if r.random() < .08 else 0)), 7)
+        m = r.randint(0, 5)
+        plant = r.random() < .3
+        seed = r.choice([0, 1, r.randrange(2 ** 31)])
+        variables = n if r.random() < .5 else r.sample(['a', 'b', 'c', 'd', 'e', 'f', 'g', 0, 1, 2, ('t', 1)], n)
+        labels = list(range(n)) if isinstance(variables, int) else variables
+        kw = f'plant_solution={plant}, seed={seed}'
+        call = (f'G.{name}({variables!r}, {m}, {kw})' if name != 'random_kmcsat' else f'random_kmcsat({variables!r}, {k}, {m}, {kw})')
+        site = 'generators.' + name
+        refuse = n < k
+        pre = HDR + 'from dimod.generators.satisfiability import random_kmcsat\n'
+        from dimod.generators.satisfiability import random_kmcsat
+        try:
+            with warnings.catch_warnings():
+                warnings.simplefilter('ignore')
+                with recording() as rec:
+                    b = eval(call, {'G': G, 'np': np, 'random_kmcsat': random_kmcsat})
+                log = rec.stream()
+            err = None
+        except ValueError as e:
+            b, err, log = None, e, []
+        ctx.tick(f'kmcsat:{name}:k={k}' + (':plant' if plant else '') + (':raises' if b is None else ''))
+        ctx.case(('kmcsat', call), nontrivial=b is not None and m > 0, sample=dict(call=call))
+        src = (pre + f'b = {call}\nk, m, labels = {k}, {m}, {labels!r}\n'
+               '# the documented relation: every clause (k literals on k different variables) contributes -(k//2) when it is satisfied\n'
+               '# (true and false literals differ in number by at most one) and at least 0 otherwise; the clauses are read off the model:\n'
+               '# with m clauses of k different variables, sum of |J| <= m*k*(k-1)/2 and the energy is bounded below by -(k//2)*m\n'
+               'vs = list(b.variables)\nassert b.vartype is dimod.SPIN and vs == labels and all(b.get_linear(v) == 0 for v in vs) and b.offset == 0\n'
+               'lo = min(F(float(b.energy(dict(zip(vs, t))))) for t in itertools.product((-1, 1), repeat=len(vs)))\n'
+               f'assert lo >= -(k // 2) * m, lo\n'
+               + ('assert F(float(b.energy({v: 1 for v in vs}))) == -(k // 2) * m, "the planted all-1 state is not a ground state"\n' if plant else ''))
+        if (b is None) != refuse:
+            ctx.fail('property', site, 'fewer variables than k' if refuse else 'valid arguments', f'{call}: ' + ('refused: ' + str(err) if b is None else 'accepted'),
+                     repro=pre + f'try:\n    {call}\n    ok = True\nexcept ValueError:\n    ok = False\nassert ok == {not refuse}\n')
+            continue
+        if b is None:
+            lines.append(f"kmcsat {k} {','.join(lab(v) for v in labels) or '-'} -")
+            checks.append((site + ' vs Gen.kmcsat', 'refusal', 'err', src, False))
+            continue
+        clauses, used = parse_clauses(log, n, k, m, plant)
+        bad = False
+
+        def fail(cls, what):
+            nonlocal bad
+            bad = True
+            ctx.fail('property', site, cls, f'{call}: {what}', repro=src)
+        vs = list(b.variables)
+        if used != len(log) or any(len(set(i for i, _ in c)) != k or any(not 0 <= i < n for i, _ in c) or any(sg not in (-1, 1) for _, sg in c) for c in clauses):
+            fail('draws', f'the recorded draws {log!r} are not {m} clauses of {k} different variables with signs')
+        elif b.vartype is not dimod.SPIN or vs != labels or any(b.get_linear(v) != 0 for v in vs) or b.offset != 0:
+            fail('shape', f'vartype {b.vartype.name}, variables {vs!r}, linear {dict(b.linear)!r}, offset {b.offset}')
+        else:
+            # property predicate, from the documented relation and the DRAWN clauses (never through the model)
+            sat_e = -(k // 2)
+            for t in itertools.product((-1, 1), repeat=n):
+                s = dict(zip(labels, t))
+                e = fr(b.energy(s))
+                nsat = 0
+                for c in clauses:
+                    true = sum(1 for i, sg in c if sg * t[i] == 1)
+                    nsat += abs(2 * true - k) <= 1
+                if e < sat_e * nsat or (e == sat_e * m) != (nsat == m):
+                    fail('clause energies', f'clauses {clauses!r}: at {s!r} energy {e} with {nsat} of {m} clauses satisfied (each satisfied clause contributes {sat_e}, every other one >= 0)')
+                    break
+                if k in (3, 4) and e != sum((sat_e if abs(2 * sum(1 for i, sg in c if sg * t[i] == 1) - k) <= 1 else
+                                             ((2 * sum(1 for i, sg in c if sg * t[i] == 1) - k) ** 2 - k) // 2) for c in clauses):
+                    fail('clause energies', f'clauses {clauses!r}: at {s!r} energy {e} is not the sum of the clause energies')
+                    break
+            if not bad and plant and fr(b.energy({v: 1 for v in labels})) != sat_e * m:
+                fail('planted solution', f'clauses {clauses!r}: the all-1 state has energy {fr(b.energy({v: 1 for v in labels}))}, not {sat_e * m}')
+        ctxt = ','.join('+'.join(f'{i}:{sg}' for i, sg in c) for c in clauses) or '-'
+        lines.append(f"kmcsat {k} {','.join(lab(v) for v in labels)} {ctxt}")
+        checks.append((site + ' vs Gen.kmcsat (clauses drawn: recorded)', 'interactions of the drawn clauses', 'ok ' + canon_bqm(b), src, bad))
+
+
+
+# ------------------------------------------------------------------------------------ binary paint shop
+
+def bpsp_cases(ctx, r, lines, checks):
+    from dimod.generators.bpsp import binary_paint_shop_problem, sample_to_coloring
+    for rep in range(ctx.scale(40, 800)):
+        n = r.randint(0, 5)
+        cars = r.sample(['a', 'b', 'c', 'd', 0, 1, 2, ('t', 1)], n)
+        seq = cars * 2
+        r.shuffle(seq)
+        if r.random() < .25 and n >= 2:
+            seq.sort(key=repr)                  # cars directly followed by themselves
+            if r.random() < .5:
+                i = r.randrange(len(seq) - 1); seq[i], seq[i + 1] = seq[i + 1], seq[i]
+        mal = None
+        k = r.random()
+        if k < .1 and n >= 2:
+            # same length, same number of different cars, but one car three times and another once
+            a, b = r.sample(cars, 2)
+            seq[seq.index(b)] = a
+            mal = 'a car three times, another once'
+        elif k < .16 and n >= 1:
+            seq.append(r.choice(cars)); mal = 'odd length'
+        elif k < .2 and n >= 1:
+            seq.remove(r.choice(cars)); mal = 'a car only once'
+        call = f'binary_paint_shop_problem({seq!r})'
+        site = 'generators.binary_paint_shop_problem'
+        pre = HDR + 'from dimod.generators.bpsp import binary_paint_shop_problem, sample_to_coloring\n'
+        src = (pre + f'seq = {seq!r}\nb = {call}\ncars = list(dict.fromkeys(seq))\n'
+               'same = sum(1 for u, v in zip(seq, seq[1:]) if u == v)\n'
+               'assert b.vartype is dimod.SPIN and set(b.variables) <= set(cars)\n'
+               'for t in itertools.product((-1, 1), repeat=len(cars)):\n'
+               '    s = dict(zip(cars, t)); _, changes = sample_to_coloring(s, seq)\n'
+               '    e = F(float(b.energy({v: s[v] for v in b.variables})))\n'
+               '    assert 2 * changes == max(len(seq) - 1, 0) + e + same, (s, changes, e)\n')
+        try:
+            b = binary_paint_shop_problem(seq)
+        except ValueError:
+            b = None
+        ctx.tick('bpsp' + (':raises' if b is None else '') + (':' + mal if mal else ''))
+        ctx.case(('bpsp', repr(seq)), nontrivial=b is not None and n > 1, sample=dict(call=call))
+        if (b is None) != (mal is not None):
+            ctx.fail('property', site, mal or 'every car exactly twice', f'{call}: ' + ('refused' if b is None else 'accepted: the model does not encode the colour changes of this sequence'),
+                     repro=pre + f'try:\n    {call}\n    ok = True\nexcept ValueError:\n    ok = False\nassert ok == {mal is None}\n')
+            continue
+        bad = False
+        if b is not None:
+            same = sum(1 for u, v in zip(seq, seq[1:]) if u == v)
+            if b.vartype is not dimod.SPIN or not set(b.variables) <= set(cars) or any(b.get_linear(v) for v in b.variables) or b.offset:
+                bad = True
+                ctx.fail('property', site, 'shape', f'{call}: vartype/variables/linear/offset', repro=src)
+            for t in itertools.product((-1, 1), repeat=len(cars)) if not bad else ():
+                smp = dict(zip(cars, t))
+                _, changes = sample_to_coloring(smp, seq)
+                e = fr(b.energy({v: smp[v] for v in b.variables})) if b.num_variables else F(0)
+                if 2 * changes != max(len(seq) - 1, 0) + e + same:
+                    bad = True
+                    ctx.fail('property', site, 'energy vs colour changes', f'{call}: at {smp!r} {changes} colour changes, energy {e}: 2*changes != (L-1) + E + {same}', repro=src)
+                    break
+        lines.append(f"bpsp {','.join(lab(v) for v in seq) or '-'}")
+        checks.append((site + ' vs Gen.bpsp', 'interactions' if b is not None else 'refusal', 'err' if b is None else 'ok ' + canon_bqm(b), src, bad))
+
+# ------------------------------------------------------------------------------------ magic square
+
+LO_SHU = [[2, 7, 6], [9, 5, 1], [4, 3, 8]]
+PARKER_LIKE = [[7, 1, 7], [5, 5, 5], [3, 9, 3]]      # all lines sum to 15, entries repeat
+
+
+def msq_cases(ctx, r, lines, checks):
+    def raw_qm(e):
+        lin = sorted(f'{lab(v)}={rat(e.get_linear(v))}' for v in e.variables)
+        quad = sorted(f'{pairkey(lab(u), lab(v))}={rat(q)}' for u, v, q in e.iter_quadratic())
+        return f"{','.join(lin)};{','.join(quad)};{rat(e.offset)}"
+    for n, power in [(1, 1), (1, 2), (2, 1), (2, 2), (3, 1), (3, 2)] + ([(4, 1), (4, 2)] if not ctx.quick else []) + [(2, 0), (2, 3), (1, -1)]:
+        call = f'G.magic_square({n}, {power})'
+        site = 'generators.magic_square'
+        try:
+            cqm = G.magic_square(n, power)
+        except ValueError:
+            cqm = None
+        ctx.tick('msq' + (':raises' if cqm is None else '')); ctx.case(('msq', n, power), nontrivial=cqm is not None)
+        if (cqm is None) != (power not in (1, 2)):
+            ctx.fail('property', site, 'power', f'{call}: ' + ('refused' if cqm is None else 'accepted'),
+                     repro=HDR + f'try:\n    {call}\n    ok = True\nexcept ValueError:\n    ok = False\nassert ok == {power in (1, 2)}\n')
+            continue
+        if cqm is None:
+            continue          # (negative powers have no model line: the protocol takes naturals)
+        src = (HDR + f'n, power = {n}, {power}\ncqm = {call}\n'
+               'import random\nq = random.Random(1)\n'
+               'cells = [(i, j) for i in range(n) for j in range(n)]\n'
+               'assert set(cqm.variables) == {f"var_{i}_{j}" for i, j in cells} | {"sum"}\n'
+               'assert all(cqm.vartype(v) is dimod.INTEGER and cqm.lower_bound(v) == 1 for v in cqm.variables)\n'
+               'def lines_(a): return [[a[i][j] for j in range(n)] for i in range(n)] + [[a[j][i] for j in range(n)] for i in range(n)] + [[a[i][i] for i in range(n)], [a[i][n-1-i] for i in range(n)]]\n'
+               'for _ in range(300):\n'
+               '    a = [[q.randint(1, 4) for _ in range(n)] for _ in range(n)]; t = sum(v**power for v in a[0]) if q.random() < .7 else q.randint(1, 30)\n'
+               '    flat = [v for row in a for v in row]\n'
+               '    want = all(sum(v**power for v in ln) == t for ln in lines_(a)) and sum((x - y)**2 for i, x in enumerate(flat) for y in flat[i+1:]) >= (n**4 - n**2) / 2\n'
+               '    s = {f"var_{i}_{j}": a[i][j] for i, j in cells}; s["sum"] = t\n'
+               '    assert cqm.check_feasible(s) == want, (a, t, want)\n')
+        bad = False
+        cells = [(i, j) for i in range(n) for j in range(n)]
+        okvars = (set(cqm.variables) == {f'var_{i}_{j}' for i, j in cells} | {'sum'}
+                  and all(cqm.vartype(v) is dimod.INTEGER and cqm.lower_bound(v) == 1 for v in cqm.variables) and cqm.objective.is_equal(0 * dimod.Integer('sum')) is not None)
+        if not okvars or cqm.objective.num_interactions or any(cqm.objective.get_linear(v) for v in cqm.objective.variables) or cqm.objective.offset:
+            bad = True
+            ctx.fail('property', site, 'variables', f'{call}: variables {list(cqm.variables)!r} / types / bounds / objective are not the documented ones', repro=src)
+
+        def lines_(a):
+            return ([[a[i][j] for j in range(n)] for i in range(n)] + [[a[j][i] for j in range(n)] for i in range(n)]
+                    + [[a[i][i] for i in range(n)], [a[i][n - 1 - i] for i in range(n)]])
+        samples = []
+        for _ in range(ctx.scale(150, 1500)):
+            a = [[r.randint(1, 4) for _ in range(n)] for _ in range(n)]
+            t = sum(v ** power for v in a[0]) if r.random() < .7 else r.randint(1, 30)
+            samples.append((a, t))
+        if n == 3 and power == 1:
+            samples += [(LO_SHU, 15), (LO_SHU, 14), (PARKER_LIKE, 15), ([[5] * 3] * 3, 15)]
+        if n == 1:
+            samples += [([[v]], v ** power) for v in (1, 2, 3)]
+        for a, t in samples:
+            if bad:
+                break
+            flat = [v for row in a for v in row]
+            want = (all(sum(v ** power for v in ln) == t for ln in lines_(a))
+                    and sum((x - y) ** 2 for i, x in enumerate(flat) for y in flat[i + 1:]) >= F(n ** 4 - n ** 2, 2))
+            s = {f'var_{i}_{j}': a[i][j] for i, j in cells}; s['sum'] = t
+            got = cqm.check_feasible(s)
+            distinct = len(set(flat)) == len(flat)
+            if got and not distinct:
+                ctx.tick('msq:feasible-with-repeated-entries')      # the single quadratic constraint does not force uniqueness (Lean witness)
+            if got != want or (distinct and all(sum(v ** power for v in ln) == t for ln in lines_(a)) and not got):
+                bad = True
+                ctx.fail('property', site, 'feasibility', f'{call}: square {a!r} with sum {t}: check_feasible={got}, the stated conditions give {want}', repro=src)
+                break
+            # every constraint on its own: the activity of `row_i` / `col_i` / `diagonal` / `antidiagonal` is the line's (power-)sum minus `sum`,
+            # the activity of `uniqueness` the sum of the squared differences of all cell pairs, against (n^4 - n^2)/2
+            ln_ = lines_(a)
+            stated = {**{f'row_{i}': sum(v ** power for v in ln_[i]) - t for i in range(n)}, **{f'col_{i}': sum(v ** power for v in ln_[n + i]) - t for i in range(n)},
+                      'diagonal': sum(v ** power for v in ln_[2 * n]) - t, 'antidiagonal': sum(v ** power for v in ln_[2 * n + 1]) - t,
+                      'uniqueness': sum((x - y) ** 2 for i, x in enumerate(flat) for y in flat[i + 1:])}
+            gotc = {label: fr(c.lhs.energy(s)) - fr(c.rhs) * (label != 'uniqueness') for label, c in cqm.constraints.items()}
+            rhs_u = fr(cqm.constraints['uniqueness'].rhs) if 'uniqueness' in cqm.constraints else None
+            if gotc != stated or rhs_u != F(n ** 4 - n ** 2, 2) or any(c.sense.name != ('Ge' if label == 'uniqueness' else 'Eq') for label, c in cqm.constraints.items()):
+                bad = True
+                ctx.fail('property', site, 'constraint activities', f'{call}: square {a!r} with sum {t}: constraint activities {gotc!r} (uniqueness rhs {rhs_u}), stated {stated!r} (rhs {F(n ** 4 - n ** 2, 2)})',
+                         repro=HDR + f'n, power, a, t = {n}, {power}, {a!r}, {t}\ncqm = {call}\ns = {{f"var_{{i}}_{{j}}": a[i][j] for i in range(n) for j in range(n)}}; s["sum"] = t\n'
+                         'flat = [v for row in a for v in row]\nu = cqm.constraints["uniqueness"]\n'
+                         'assert u.sense.name == "Ge" and F(float(u.rhs)) == F(n**4 - n**2, 2) and F(float(u.lhs.energy(s))) == sum((x - y)**2 for i, x in enumerate(flat) for y in flat[i+1:])\n'
+                         'for i in range(n):\n'
+                         '    assert F(float(cqm.constraints[f"row_{i}"].lhs.energy(s))) == sum(v**power for v in a[i]) - t\n'
+                         '    assert F(float(cqm.constraints[f"col_{i}"].lhs.energy(s))) == sum(a[j][i]**power for j in range(n)) - t\n'
+                         'assert F(float(cqm.constraints["diagonal"].lhs.energy(s))) == sum(a[i][i]**power for i in range(n)) - t\n'
+                         'assert F(float(cqm.constraints["antidiagonal"].lhs.energy(s))) == sum(a[i][n-1-i]**power for i in range(n)) - t\n')
+        lines.append(f'msq {n} {power}')
+        want_line = 'ok ' + '|'.join(f"{label.encode().hex()}:{c.sense.name.lower()}:{rat(c.rhs)}:{raw_qm(c.lhs)}" for label, c in cqm.constraints.items())
+        checks.append((site + ' vs Gen.magicSquare', 'constraints', want_line, src, bad))
+
 # ------------------------------------------------------------------------------------ random generators (validated, not proved)
 
 def same_bqm(a, b):
@@ -653,6 +1064,10 @@ class RecGen:
         v = self.g.integers(*a, **k); self.log += [int(x) for x in np.atleast_1d(v).ravel()]; return v
 
     def choice(self, a, size=None, replace=True, p=None, **k):
+        if isinstance(a, (int, np.integer)):     # `choice(n, …)`: the population is range(n), the value is the index
+            idx = self.g.choice(a, size=size, replace=replace, p=p, **k)
+            self.log += [int(x) for x in np.atleast_1d(idx).ravel()]
+            return idx
         vals = np.asarray(a)
         idx = self.g.choice(len(vals), size=size, replace=replace, p=p, **k)
         self.log += [int(x) for x in np.atleast_1d(idx).ravel()]
@@ -765,6 +1180,11 @@ def run(ctx):
     comb_cases(ctx, r, lines, checks)
     graph_cases(ctx, r, lines, checks)
     knap_cases(ctx, r, lines, checks)
+    qknap_cases(ctx, r, lines, checks)
+    qap_cases(ctx, r, lines, checks)
+    kmcsat_cases(ctx, r, lines, checks)
+    bpsp_cases(ctx, r, lines, checks)
+    msq_cases(ctx, r, lines, checks)
     random_cases(ctx, r)
     random_corr(ctx, r, lines, checks)
     ctx.notes.append('random generators: the NumPy generator is a contract (its draws are recorded and handed to the models as an explicit stream); placement of the draws, index maps, pair selection, capacities are modelled (Rnd.*) and proved; range / reproducibility over seeds stay validated; '
